@@ -12,7 +12,7 @@ EXPLANATION = ('(R18.1) the per-joint sampler (found by role inside Constraints:
                'an abstract path all of whose branch decisions are definite for the whole cell and whose result lies, modulo 2*pi, wholly off '
                'the arc [from, to] is a region of definite counterexamples (VIOLATION with the cell as witness); a cell all of whose paths lie '
                'on the arc widened by the cell width holds.  (R18.2) in the same cells the gen_range bounds satisfy lo < hi (no panic) when the arc '
-               'has positive width.  (R18.3) slot i is sampled from (from[i], to[i]).  Distribution quality and rand itself are not decided.')
+               'has positive width.  (R18.3) slot i is sampled from (from[i], to[i]).  The acceptance side (the constraints accept exactly the arc) is C07, whose clauses are re-checked here.  Distribution quality and rand itself are not decided.')
 NOT_DECIDED = 'distribution quality; behaviour of rand itself (assumed to return a value in [lo, hi)); exactness within one cell width of the arc ends'
 ASSUMPTIONS = ['rand::Rng::gen_range(lo..hi) returns a value in [lo, hi) and panics iff lo >= hi']
 SPLITS = 8
@@ -206,6 +206,11 @@ def run(ctx):
         ctx.check(ok, 'R18.2', 'from==to==%g' % x, sampler.where(0), sampler.path,
                   'from == to means unconstrained, yet sampling fails: ' + msg, detail=msg)
 
+    # "accepted by the same constraints": the sampler is judged against the arc [from, to]; that the constraints accept
+    # exactly that arc is C07's statement, whose clauses are re-checked here (a change of the centre/tolerance computation
+    # or of the membership test breaks C18 as much as C07)
+    from . import C07
+    C07.run(ctx)
     ctx.evaluations += holds + fails + und
     ctx.extra['cells'] = {'width_deg': w / deg, 'holds': holds, 'definite_failures': fails, 'empty_range_panics': empties, 'undecided': und, 'excluded_band_or_ambiguous': excl}
     total = holds + fails + und + empties
